@@ -20,7 +20,8 @@ from props import C10 as TEN
 
 ID = 'C17'
 CASE_TIMEOUT = 120   # per-case wall-clock limit of the driver's hang detection (scripted drivers; thorough live runs are in extra_checks)
-COQ_TARGETS = ['theories/Props/C17.vo', 'theories/Exec/ModesCases.vo', 'theories/Exec/FdTableCases.vo', 'theories/Exec/DispatchFacts.vo']
+COQ_TARGETS = ['theories/Props/C17.vo', 'theories/Exec/ModesCases.vo', 'theories/Exec/FdTableCases.vo', 'theories/Exec/DispatchFacts.vo',
+               'theories/Exec/DispatchLocksFacts.vo']
 IMPORTS = ('From PM Require Import Lib.Bytes Lib.ZDict Exec.Threadless Exec.ThreadlessOld Exec.ThreadlessCases Exec.Modes Exec.ModesCases Exec.FdTable Exec.FdTableCases Exec.Dispatch.\n'
            'From Coq Require Import ZArith.')
 CASE_TYPE = 'c17case'
@@ -475,7 +476,15 @@ def gen_dispatch_grid(rng, quick):
 def coq_dispatch(case, out):
     conns = C.coq_list('(%s, %d%%Z)' % ('None' if a is None else '(Some %d)' % a, fd) for a, fd in case['conns'])
     served = C.coq_list(C.coq_list('(%d%%Z, %s)' % (fd, 'None' if a is None else '(Some %d)' % a) for fd, a in w) for w in out['served'])
-    return 'C17D (CDispatch %s %d %d %s %d %s)' % (C.coq_bool(case['unix']), case['idd'], case['nw'], conns, out['status'], served)
+    terms = ['C17D (CDispatch %s %d %d %s %d %s)' % (C.coq_bool(case['unix']), case['idd'], case['nw'], conns, out['status'], served)]
+    if out['status'] == 0 and 'writes' in out:
+        # lock discipline, compared IN COQ with the interleaving model (Exec/DispatchLocks.v, check_lcase in Exec/ModesCases.v):
+        # per message written (pipe index, is it the descriptor message, locks held) and per descriptor (pipe index, pid addressed)
+        writes = C.coq_list('(%d, %s, %s)' % (k, C.coq_bool(kind == 'handle'), C.coq_list('%d' % l for l in locks))
+                            for k, kind, locks in out['writes'])
+        pid_of = C.coq_list('(%d, %d)' % (k, pid) for k, pid in out['pid_of'])
+        terms.append('C17L (CDispatchLocks %s %d %d %s %s %s)' % (C.coq_bool(case['unix']), case['idd'], case['nw'], conns, writes, pid_of))
+    return terms
 
 
 def dispatch_oracle(case, out):
